@@ -461,6 +461,19 @@ def field_kinds(vk, cfg):
     eye = np.eye(3).reshape(3, 3, 1, 1)
     vk.ensures_eq("extract==I+grad", F, spec + (ring.lift(eye) if vk.sym else eye))
     vk.ensures_eq("extract(sym)", f.extract(grad=True, sym=True, add_identity=False), (spec + np.einsum("ij...->ji...", spec)) / 2)
+    # every combination of the options of extract (the default add_identity=True also with sym=True; grad=False is the
+    # interpolated field), through the field and through its container
+    Ieye = ring.lift(eye) if vk.sym else eye
+    symspec = (spec + np.einsum("ij...->ji...", spec)) / 2
+    fc = fem.FieldContainer([f])
+    vk.real(fem.FieldContainer.extract)
+    for sym_, addi in ((False, False), (False, True), (True, False), (True, True)):
+        want = (symspec if sym_ else spec) + (Ieye if addi else 0 * Ieye)
+        vk.ensures_eq(f"extract(grad=True,sym={sym_},add_identity={addi})", f.extract(grad=True, sym=sym_, add_identity=addi), want)
+        got = fc.extract(grad=True, sym=sym_, add_identity=addi)
+        vk.ensures_true(f"container.extract(sym={sym_},add_identity={addi}) lists one array per field", isinstance(got, (list, tuple)) and len(got) == 1, "", backend="exec")
+        vk.ensures_eq(f"container.extract(grad=True,sym={sym_},add_identity={addi})", got[0], want)
+    vk.ensures_eq("extract(grad=False)==interpolate", f.extract(grad=False), f.interpolate())
     vk.canary("extract==grad", F, spec) if vk.sym else None
 
 
